@@ -7,7 +7,7 @@ from props import c02, c03, c12
 
 ID = "C18"
 LEVEL = "proof"
-THEOREMS = ["C18_anon_name_injective", "C18_names_unique_in_output", "C18_compile_renumber", "C18_emit_renumber", "C18_wf_document_names_unique", "C18_system_output_names_unique", "C18_system_load_renumber", "C18_system_compile_history_independent"]
+THEOREMS = ["C18_anon_name_injective", "C18_names_unique_in_output", "C18_compile_renumber", "C18_emit_renumber", "C18_wf_document_names_unique", "C18_system_output_names_unique", "C18_system_load_renumber", "C18_system_compile_history_independent", "C18_compile_emit_renumber", "C18_system_specifications_correspond"]
 TRUSTED = c02.TRUSTED + ["harness/hist_worker.py: runs a list of compilations in one fresh interpreter (PYTHONHASHSEED set per process)"]
 ASSUMPTIONS = ["histories are 0-3 earlier compilations of other projects that use the same relative file names, in one process; invocation from the project root or from its parent; hash seeds 0.. ; both back-ends; with and without a fixed-sequence file"]
 
